@@ -38,6 +38,14 @@ pub fn faults() -> Vec<(&'static str, &'static str)> {
         ("non-procedure", "(\"s\")"),
         ("non-procedure", "((f1 1) 2)"),
         ("non-procedure", "('f1 1)"),
+        // the non-procedure is called by a library procedure written in Scheme (base.sld)
+        ("non-procedure-in-library", "(map 5 '(1 2))"),
+        ("non-procedure-in-library", "(for-each 'f1 '(1 2))"),
+        ("non-procedure-in-library", "(fold-left \"+\" 0 '(1 2))"),
+        ("non-procedure-in-library", "(fold-right v0 0 '(1))"),
+        ("arity-in-library", "(map f2 '(1 2))"),
+        ("arity-in-library", "(for-each f0 '(1 2))"),
+        ("arity-in-library", "(fold-left f1 0 '(1 2))"),
         ("arity-few-fixed", "(f1)"),
         ("arity-few-fixed", "(f2 1)"),
         ("arity-many-fixed", "(f1 1 2)"),
